@@ -704,7 +704,7 @@ Proof.
       destruct R as (_ & D' & L' & Hh' & Ht').
       assert (V : valid_hop (hop_ (chan l)) = true) by (apply valid_hop_iff; rewrite Hh; unfold hop_ok; lia).
       rewrite V in *. cbn [andb] in *.
-      split; [split; [rewrite D'; exact D|exact L']|].
+      split; [split; cbn [chan]; [rewrite D'; exact D|exact L']|].
       cbn [phase chan channel_index g_map g_hop g_elapsed].
       split; [reflexivity|]. split; [|split; [rewrite Hh'; exact Hh|split; [exact Hr|split; [|exact Hi]]]].
       * rewrite Ht'. destruct (valid_map map); [rewrite Hh, Nat2N.id; reflexivity|exact Ht].
